@@ -84,3 +84,41 @@ def load_rules(chk, repo, rule, keys, text, thorough=False):
             chk.ok(rule, WHERE, "model load")
     elif undecided:
         chk.note(f"{rule}: {len(undecided)} model loads could not be evaluated ({undecided[0][3][:100]})")
+
+
+WRAPPER_KEYS = [
+    # (lines, records_per_chunk, key): long contiguous selections that do not start on the chunk grid, strided ones, single lines
+    (40, 2, (slice(1, 40, 1), slice(None, None, None))), (40, 2, (slice(0, 40, 1), slice(0, 3, 1))), (40, 2, (slice(3, 38, 1), 1)), (40, 2, (slice(0, 40, 3), slice(None, None, None))),
+    (40, 1, (slice(5, 39, 1), slice(None, None, None))), (40, 3, (slice(2, 40, 1), slice(None, None, None))), (9, 4, (slice(1, 9, 1), slice(None, None, None))), (9, 4, (5, slice(None, None, None))),
+    (70, 2, (slice(7, 69, 1), slice(None, None, None))), (70, 4, (slice(1, 70, 2), 0)),
+]
+
+
+def wrapper_requests(chk, repo, rule):
+    """one load as xarray issues it (through the backend wrapper built by its own __init__): however the wrapper splits it, every
+    touched group of records_per_chunk lines is requested at most once, each request inside that group's bytes"""
+    from ..loadmodel import run_wrapper_load
+    where = "ceos_alos2/xarray.py:LazilyIndexedWrapper._raw_indexing_method"
+    chk.rule(rule, "a load issued through the backend wrapper requests every touched group of lines at most once, confined to the group's bytes, from the image file only", len(WRAPPER_KEYS) // 2)
+    undecided, failed = [], {}
+    for n, rpc, key in WRAPPER_KEYS:
+        ld, ranges, content = run_wrapper_load(repo, n, 8, rpc, key)
+        if ld.outcome.startswith("undecided"):
+            undecided.append((n, rpc, key, ld.outcome))
+            continue
+        if ld.outcome != "returned":
+            failed.setdefault("outcome", []).append(f"selection {key!r} of a {n}-line image at records_per_chunk={rpc} does not load through the wrapper: {ld.outcome[:120]}")
+            continue
+        for k, ok, good, bad in judge(ld, ranges, content, n, rpc, key):
+            if k not in ("requests", "confined", "one-file"):
+                continue
+            if not ok:
+                failed.setdefault(k, []).append(bad if bad.startswith("selection") else f"selection {key!r} of a {n}-line image at records_per_chunk={rpc}: {bad}")
+    for k, msgs in failed.items():
+        chk.fail(rule, where, msgs[0] + (f" (and {len(msgs) - 1} more selections)" if len(msgs) > 1 else ""), key=f"wrapper-load:{k}")
+    if undecided and not failed:
+        n, rpc, key, why = undecided[0]
+        raise AnalysisError(f"{where}: a load through the wrapper cannot be evaluated for {len(undecided)} of {len(WRAPPER_KEYS)} selections (e.g. {key!r} on {n} lines, records_per_chunk={rpc}: {why[:160]})")
+    if not failed:
+        for _ in WRAPPER_KEYS:
+            chk.ok(rule, where, "model load through the wrapper")
